@@ -72,6 +72,28 @@ pub fn hit_event(max_avals: usize) -> impl Strategy<Value = HitEvent> {
         })
 }
 
+/// A crowded pad column: one to three wire hits facing one pad column and 9-14
+/// three-row pad clusters in that column, all in the same time bin (more pad
+/// hits than the eight wires a column faces), amplitudes in no particular order.
+pub fn crowded_column() -> impl Strategy<Value = HitEvent> {
+    (0u16..256, 20u16..150, 2u16..100, 5u16..=30, vec(100.0f32..1500.0, 14), 9usize..=14, vec((0u16..8, 5.0f32..250.0), 1..=3), any::<u64>()).prop_map(|(wire, bin, row0, spacing, amps, n, wires, noise_seed)| {
+        let column = geometric_column(wire as usize) as u8;
+        let first_of_column = (0..256u16).find(|&w| geometric_column(w as usize) as u8 == column && geometric_column(((w + 255) % 256) as usize) as u8 != column).unwrap_or(wire);
+        let wire_hits = wires.into_iter().map(|(k, amp)| WireHit { wire: (first_of_column + k) % 256, bin, amp }).collect();
+        let mut pad_hits = Vec::new();
+        for (k, amp) in amps.into_iter().take(n).enumerate() {
+            let row = row0 + k as u16 * spacing;
+            if row + 1 > 575 {
+                break;
+            }
+            pad_hits.push(PadHit { column, row: row - 1, bin, amp: amp * 0.4 });
+            pad_hits.push(PadHit { column, row, bin, amp });
+            pad_hits.push(PadHit { column, row: row + 1, bin, amp: amp * 0.5 });
+        }
+        HitEvent { wire_hits, pad_hits, noise: 0, noise_seed, wire_bins: 200, pad_bins: 200, chunk_size: 1400, timestamp: 7, induction: false }
+    })
+}
+
 // ------------------------------------------------------------------ bank-level edits
 
 #[derive(Clone, Debug, Serialize, Deserialize)]
